@@ -27,7 +27,7 @@ ASSUMPTIONS = [
     "link keys beyond the configured key-table size, fields a version cannot store (v4: frame counters, children below v9) and the EUI64 when it cannot be rewritten are excluded, as the statement says",
     "command payload schemas inside the NCP model are bellows' own tables",
 ]
-PROBES = ["eui64.rewritten_nv3", "eui64.not_rewritable", "eui64.same", "eui64.custom_before", "eui64.unknown", "hashed_tclk.given", "hashed_tclk.generated", "link_keys.some", "link_keys.over_capacity", "link_keys.gap_in_table", "read_failed_on_unanswered_command", "read_returned_despite_unanswered_command", "write_failed_on_unanswered_command", "write_returned_despite_unanswered_command",
+PROBES = ["formed_by_zigpy_initialize", "eui64.rewritten_nv3", "eui64.not_rewritable", "eui64.same", "eui64.custom_before", "eui64.unknown", "hashed_tclk.given", "hashed_tclk.generated", "link_keys.some", "link_keys.over_capacity", "link_keys.gap_in_table", "read_failed_on_unanswered_command", "read_returned_despite_unanswered_command", "write_failed_on_unanswered_command", "write_returned_despite_unanswered_command",
           "children.some", "tc_address.unknown", "status_event_before_response", "token_api_missing", "mask_without_channel"]
 
 VERSIONS = list(range(4, 15))
@@ -68,6 +68,10 @@ def plan(tier):
         kw = list(range(0, 150, 2 if tier == "thorough" else 5))
         for i in range(0, len(kw), 8):
             sweeps.append(("grid", {"V": V, "cap": 0 if V >= 9 else 3, "tmpl": 2, "sched": False, "drop_write": kw[i:i + 8]}))
+    # the write / read path as zigpy itself drives it on a stick that never had a network: initialize(auto_form=True) = ephemeral network, energy
+    # scan, final settings (from the configuration), start-up read
+    for V in VERSIONS:
+        sweeps.append(("autoform", {"V": V, "sched": False}))
     return {
         "sweeps": sweeps,
         "exhaustive": "versions 4..14 x capability variant {NV3 restored-EUI64 token; token API but no such token; token API answers invalidCommand; plain; NV3 token already holding a custom EUI64 (v9+)} x 4 settings templates",
@@ -143,7 +147,68 @@ def make_settings(tape, tmpl, ncp_eui):
     return ni, node, facts
 
 
+def run_autoform(params, tape, detail=False):
+    import zigpy.config as zc
+
+    V = params["V"]
+    rig = e3app.AppRig(tape, version=V, sched=params.get("sched", True))
+    rig.line.ties = False
+    loop, ncp = rig.loop, rig.ncp
+    appmod.os = OsShim(tape)
+    viol, probes, st = [], {"formed_by_zigpy_initialize": 1}, {}
+    pan, epid, nkey = 0x1A2B, bytes([0x88, 0x77, 0x66, 0x55, 0x44, 0x33, 0x22, 0x11]), bytes(range(0x30, 0x40))
+
+    async def main():
+        nwk_cfg = {zc.CONF_NWK_PAN_ID: pan, zc.CONF_NWK_EXTENDED_PAN_ID: zt.ExtendedPanId.deserialize(epid)[0], zc.CONF_NWK_KEY: zt.KeyData(nkey)}
+        app = rig.make_app(**{zc.CONF_NWK: nwk_cfg})
+        ncp.auto_confirm = True
+        await app.connect()
+        rig.ezsp = app._ezsp
+        await app.initialize(auto_form=True)
+        st["net"], st["node"] = app.state.network_info, app.state.node_info
+        st["sec_calls"] = list(ncp.sec_calls)
+        # ... and once more after another NCP reset, as C14's other scenarios do
+        await app._reset()
+        await app.load_network_info(load_devices=True)
+        st["net2"] = app.state.network_info
+
+    outcome, val = rig.run(main())
+    tag = f"v{V} formed by zigpy's initialize(auto_form=True)"
+    if outcome != "done":
+        import traceback
+
+        tb = "".join(traceback.format_exception(val))[-500:] if isinstance(val, BaseException) else ""
+        if isinstance(val, TimeoutError) and "startup_reset" in tb:
+            probes["startup_failed_by_reset_race"] = 1  # F13 (C09's open finding): zigpy's keep-alive queued when bellows resets the NCP
+        else:
+            viol.append(("C14.rt", "sim-" + outcome, f"{tag}: ended with {outcome}: {val!r} {tb}"))
+    else:
+        npar = ncp.net_params
+        for which, net in (("start-up read", st["net"]), ("read after a further reset", st["net2"])):
+            have = {"pan_id": int(net.pan_id), "extended_pan_id": bytes(net.extended_pan_id.serialize()), "network_key": bytes(net.network_key.key.serialize()),
+                    "network_key_seq": int(net.network_key.seq), "tclk": bytes(net.tc_link_key.key.serialize()), "channel": int(net.channel)}
+            want = {"pan_id": pan, "extended_pan_id": epid, "network_key": nkey, "network_key_seq": 0, "tclk": WELL_KNOWN, "channel": int(npar.radioChannel)}
+            bad = {k: (have[k], want[k]) for k in want if have[k] != want[k]}
+            if bad:
+                viol.append(("C14.rt", sorted(bad)[0], f"{tag}: {which} differs from the settings zigpy wrote (got, written): {bad}"))
+            if not (int(net.channel_mask) >> int(net.channel)) & 1:
+                viol.append(("C14.rt", "channel_mask", f"{tag}: {which}: channel {int(net.channel)} not in the mask {int(net.channel_mask):#x}"))
+        if int(npar.panId) != pan or bytes(npar.extendedPanId.serialize()) != epid or bytes(ncp.sec["nwk_key"]) != nkey:
+            viol.append(("C14.sec", "ncp-state", f"{tag}: the NCP ended up with pan {int(npar.panId):#06x} / epid {bytes(npar.extendedPanId.serialize()).hex()} / key {bytes(ncp.sec['nwk_key']).hex()}"))
+        last = st["sec_calls"][-1] if st["sec_calls"] else None
+        if last is None or bytes(last.networkKey.serialize()) != nkey or bool(int(last.bitmask) & 0x0084 == 0x0084) != (V >= 5):
+            viol.append(("C14.sec", "network-key", f"{tag}: last setInitialSecurityState carried {last!r}"))
+    res = {"viol": viol, "faults": {}, "probes": probes, "vt": loop.time(), "iters": loop.iters, "sig": hashlib.blake2b(repr(("autoform", V)).encode(), digest_size=8).digest(),
+           "nontrivial": True, "digest": hashlib.sha256(repr((rig.log[-300:], loop.time(), loop.iters)).encode()).hexdigest()[:16],
+           "sample": {"V": V, "scenario": "autoform", "setInitialSecurityState_calls": len(st.get("sec_calls", [])), "commands": len(ncp.requests)}}
+    if detail:
+        res["trace"] = [repr(e) for e in rig.log[-200:]]
+    return res
+
+
 def run(scenario, params, tape, detail=False):
+    if scenario == "autoform":
+        return run_autoform(params, tape, detail)
     multi = next((key for key in ("drop_read", "drop_write") if isinstance(params.get(key), list)), None)
     if multi:
         # several cells in one run record: the k-th command of the read-back (or of the write) goes unanswered, for each listed k
